@@ -6,7 +6,7 @@ from hypothesis import strategies as st
 from ..hexcommon import histories
 from ..deepchain import build_chain
 from ..hexrun import check_lookup, run_history
-from ..util import Info, impl
+from ..util import Info, call_with_headroom, expect_eq, impl
 
 ID = "C01"
 LEVEL = "exploration"
@@ -68,6 +68,11 @@ def _run_deep(case, info):
     probes = list(model) + [k + b"\x00" for k in keys[::7]] + [k[:-1] + bytes([k[-1] ^ 1]) for k in keys[::5]]
     for k in probes:
         check_lookup(t, model, k, True)
+    # look-ups are iterative by design: they must also work for a caller that sits deep in its
+    # own recursion (only 100 frames left below the interpreter's recursion limit)
+    for k in keys[::23] + keys[-2:]:
+        got = impl("lookup-never-raises", call_with_headroom, 100, lambda: (t.get(k), t.exists(k), k in t, t[k]))
+        expect_eq("get-returns-latest", got, (model[k], True, True, model[k]), f"look-ups of a {len(k)}-byte key from a deep call stack")
     # deleting from the deepest key upwards keeps every remaining key readable
     for k in reversed(keys[len(keys) // 2:]):
         impl("delete-never-raises", t.delete, k)
